@@ -428,4 +428,33 @@ PROPS['C20'] = {
     'level_note': 'small shapes; float16 judged at 2e-2',
 }
 
+# the repository's own tests as an additional thorough-tier workload (DESIGN §2.6)
+_T = 'tests/'
+PYTEST = {
+    'C01': (['reduce'], ['_base/test_rules.py', '_base/test_blocks.py', '_base/test_indices.py', '_base/test_pack.py', '_base/axes/test_move_axis.py',
+                         '_base/axes/test_ravel.py', '_base/axes/test_reshape.py', 'operators/test_hwp.py', 'operators/test_polarizers.py',
+                         'operators/test_qu_rotations.py', 'test_projections.py', '_base/test_core.py', '_base/test_inverse.py']),
+    'C02': (['arith'], ['_base/test_add.py', '_base/test_mul.py', '_base/test_base.py', '_base/test_core.py', '_base/test_inverse.py', '_base/test_rules.py']),
+    'C03': (['transpose'], ['_base/test_transpose.py', '_base/test_blocks.py', '_base/test_dense.py', '_base/test_indices.py', '_base/test_pack.py',
+                            '_base/axes/test_move_axis.py', '_base/axes/test_ravel.py', '_base/axes/test_reshape.py', 'operators/test_qu_rotations.py',
+                            'operators/test_toeplitz.py', 'toast/test_obs_matrix.py', '_base/test_diagonal.py', 'test_projections.py']),
+    'C04': (['asmatrix'], ['_base/test_blocks.py', '_base/test_diagonal.py', '_base/test_add.py', '_base/test_dense.py', 'operators/test_toeplitz.py',
+                           '_base/axes/test_ravel.py', '_base/axes/test_reshape.py', '_base/test_base.py', '_base/test_inverse.py', 'operators/test_hwp.py']),
+    'C05': (['structure'], ['_base/test_blocks.py', '_base/test_diagonal.py', '_base/test_dense.py', '_base/test_indices.py', '_base/test_pack.py',
+                            '_base/axes/test_ravel.py', '_base/axes/test_reshape.py', '_base/axes/test_move_axis.py', 'operators/test_toeplitz.py',
+                            'operators/test_hwp.py', 'operators/test_polarizers.py', 'operators/test_qu_rotations.py', 'test_projections.py', '_base/test_rules.py']),
+    'C06': (['inverse'], ['_base/test_inverse.py', '_base/test_diagonal.py', '_base/test_blocks.py', 'operators/test_qu_rotations.py', 'test_solver.py',
+                          '_base/axes/test_move_axis.py', 'operators/test_decorators.py']),
+    'C09': (['mvref'], ['operators/test_toeplitz.py']),
+    'C11': (['mvref'], ['_base/test_diagonal.py']),
+    'C12': (['mvref'], ['_base/test_indices.py', '_base/test_pack.py', 'test_projections.py']),
+    'C13': (['mvref'], ['_base/axes/test_move_axis.py', '_base/axes/test_ravel.py', '_base/axes/test_reshape.py']),
+    'C14': (['mvref'], ['_base/test_dense.py']),
+    'C15': (['mvref'], ['operators/test_hwp.py', 'operators/test_polarizers.py', 'operators/test_qu_rotations.py']),
+}
+for _p, (_g, _f) in PYTEST.items():
+    PROPS[_p]['pytest'] = {'groups': _g, 'files': [_T + f for f in _f]}
+    base = PROPS[_p].get('modes_thorough') or PROPS[_p]['modes']
+    PROPS[_p]['modes_thorough'] = list(base) + [(0, min(4, len(_f)), 'pytest')]
+
 NOT_APPLICABLE: dict[str, str] = {}
